@@ -35,6 +35,16 @@
 #define ARRAY_UNCHANGED(a) ((a)->len == OLD_LEN(a) && (a)->items == OLD_ITEMS(a) && \
                             (vg_k >= (size_t) (a)->len || (a)->items[vg_k] == vg_old_k))
 
+/* element matching in the pair model (env_array.h): the ghost pair is (old items[vg_k], probe)
+ * for index/find (receiver = stored element) resp. (probe, old items[vg_k]) for remove
+ * (receiver = probe); vg_cr is the comparison result on that pair.
+ * index: a NULL placeholder matches a NULL probe; an element matches if comp says EQUAL
+ *        (comp(x, NULL) is GREATER, so a NULL probe matches no element). */
+#define VA_MATCH_INDEX(probe) ((vg_old_k == (spif_obj_t) NULL) ? ((probe) == (spif_obj_t) NULL) \
+                               : ((probe) != (spif_obj_t) NULL && vg_cr == SPIF_CMP_EQUAL))
+/* find/contains/remove: placeholders never match */
+#define VA_MATCH_FIND (vg_old_k != (spif_obj_t) NULL && vg_cr == SPIF_CMP_EQUAL)
+
 /* frame of a mutator */
 #define ARRAY_FRAME(a) (a)->len, (a)->items; (a)->items != NULL: __CPROVER_object_whole((a)->items)
 
